@@ -2,7 +2,7 @@
 # seed_recheck.sh <seed-id> <check-id> [cmd-dir] [tier] [note]: re-run only our check against a stored seeded change
 # (after the check was strengthened) and append the outcome to seeded/<id>/meta.json.
 sid="$1"; cid="$2"; cmd="${3:-./cmd/vmc}"; tier="${4:-quick}"; note="$5"
-dst=/verif/seeded/$sid
+dst=/verif/seeded/$sid${SEED_SUFFIX:-}
 cd /verif
 scripts/mutate_overlay.sh $dst/patch.diff $cid $cmd $tier > $dst/our_check_output.log 2>&1; res=$(tail -3 $dst/our_check_output.log)
 det=MISSED; echo "$res" | grep -q DETECTED && det=DETECTED
